@@ -572,7 +572,10 @@ class Runner {
       case 12: op_member_copy(); break;
       case 13: op_doc_level(); break;
       case 14: op_deserialize(); break;
-      case 15: op_read_only(); break;
+      case 15:
+        if (s.coin()) op_read_only();
+        else op_no_such_key();
+        break;
       default: op_copy_array(); break;
     }
     reconcile();
@@ -604,6 +607,7 @@ class Runner {
   void do_set(const Target& t, const Scalar& sc) {
     set_hole(t);
     bool assign_op = sc.assign;
+    if (assign_op) st.assign_ops++;
     note(render_target(t) + (assign_op && (t.form == 0 || t.form >= 3) ? " = (" : ".set(") + render_scalar(sc) + ")");
     if (t.form >= 3) st.proxy_ops++;
     if (t.form == 2 || t.form == 4) st.handle_ops++;
@@ -1494,6 +1498,131 @@ class Runner {
   }
 
   // copyArray in both directions
+  // a variant that is neither an index nor a key: operations addressed through it designate nothing
+  static void make_odd_key(JsonDocument& k, unsigned odd) {
+    switch (odd) {
+      case 0: k.set(-1); break;
+      case 1: k.set(1.5); break;
+      case 2: k.set(true); break;
+      case 3: k.clear(); break;
+      case 4: k.add(0); break;
+      case 5: k.set(-4000000000LL); break;
+      default: k.set(1.0); break;  // stored as a float: is<size_t>() is false
+    }
+  }
+  static const char* odd_key_name(unsigned odd) {
+    static const char* N[] = {"-1", "1.5", "true", "null", "[0]", "-4000000000", "1.0(float)"};
+    return N[odd < 7 ? odd : 6];
+  }
+  // operations through a null key or through a variant that is neither index nor key: the model
+  // predicts no effect at all (in particular a null target stays null), reads give null
+  void op_no_such_key() {
+    // typed handles have their own overloads (JsonArray::remove(variant), JsonObject::operator[](variant), ...)
+    std::vector<int> hs = live_handles(-1, 6);
+    unsigned odd = (unsigned)s.below(7);
+    Scalar sc = gen_scalar(s, opt);
+    st.no_such_key_ops++;
+    if (!hs.empty() && s.coin()) {
+      int hi = hs[s.below(hs.size())];
+      MHandle& h = m.handles[(size_t)hi];
+      unsigned which = (unsigned)s.below(4);
+      note("h" + std::to_string(hi) + (h.type == 1 ? "(array)" : "(object)") + " no-such-key op " + std::to_string(which) + " key " + odd_key_name(odd));
+      Target ht;
+      ht.doc = h.doc;
+      ht.form = 2;
+      ht.handle = hi;
+      set_hole(ht);
+      for (auto& w : worlds) {
+        JsonDocument k;
+        make_odd_key(k, odd);
+        JsonVariantConst kv = k.as<JsonVariantConst>();
+        if (h.type == 1) {
+          JsonArray a = w->handles[(size_t)hi].a;
+          switch (which) {
+            case 0: a.remove(kv); break;
+            case 1: {
+              bool r = lib_set(a[kv], sc, *w);
+              if (!sc.assign && exact_return(sc)) ret_check(r, false, "JsonArray[variant that is not an index].set() returned true");
+              break;
+            }
+            case 2:
+              if (!a[kv].isNull()) fail("no-such-key", "JsonArray[variant that is not an index] is not null");
+              break;
+            default: {
+              JsonArray sub = a[kv].template to<JsonArray>();
+              if (!sub.isNull()) fail("no-such-key", "JsonArray[variant that is not an index].to<JsonArray>() is bound");
+            }
+          }
+        } else {
+          JsonObject o = w->handles[(size_t)hi].o;
+          switch (which) {
+            case 0:
+              o.remove(kv);
+              o.remove(static_cast<const char*>(nullptr));
+              break;
+            case 1: {
+              bool r = lib_set(o[kv], sc, *w);
+              if (!sc.assign && exact_return(sc)) ret_check(r, false, "JsonObject[variant that is not a key].set() returned true");
+              break;
+            }
+            case 2:
+              if (!o[kv].isNull() || !o[static_cast<const char*>(nullptr)].isNull()) fail("no-such-key", "JsonObject[null key] is not null");
+              break;
+            default: {
+              bool r = lib_set(o[static_cast<const char*>(nullptr)], sc, *w);
+              if (!sc.assign && exact_return(sc)) ret_check(r, false, "JsonObject[null key].set() returned true");
+            }
+          }
+        }
+      }
+      return;
+    }
+    Target t = gen_target();
+    Val* n = resolve(t, false);
+    if (!n) {  // would create the path to the target first: not this operation's business
+      op_read_only();
+      return;
+    }
+    set_hole(t);
+    unsigned which = (unsigned)s.below(8);
+    note(render_target(t) + " no-such-key op " + std::to_string(which) + " key " + odd_key_name(odd) + " value " + render_scalar(sc));
+    for (auto& w : worlds) {
+      JsonDocument k;
+      make_odd_key(k, odd);
+      JsonVariantConst kv = k.as<JsonVariantConst>();
+      auto doit = [&](auto&& x) {
+        bool r = false, has_r = false;
+        switch (which) {
+          case 0: r = lib_set(x[static_cast<const char*>(nullptr)], sc, *w); has_r = true; break;
+          case 1: r = lib_set(x[static_cast<char*>(nullptr)], sc, *w); has_r = true; break;
+          case 2: r = lib_set(x[JsonString()], sc, *w); has_r = true; break;
+          case 3:
+            x.remove(static_cast<const char*>(nullptr));
+            x.remove(JsonString());
+            break;
+          case 4: x.remove(kv); break;
+          case 5:
+            if (!x[static_cast<const char*>(nullptr)].isNull() || !x[kv].isNull()) fail("no-such-key", "value read through a null key / a variant that is no key is not null");
+            break;
+          case 6: {
+            JsonArray sub = x[static_cast<const char*>(nullptr)].template to<JsonArray>();
+            if (!sub.isNull()) fail("no-such-key", "[null key].to<JsonArray>() is bound");
+            r = x[static_cast<const char*>(nullptr)].add(1);
+            if (r) fail("no-such-key", "[null key].add() returned true");
+            break;
+          }
+          default:
+            r = lib_set(x[static_cast<const char*>(nullptr)]["k"], sc, *w);
+            has_r = true;
+            if (!x[static_cast<const char*>(nullptr)][2].isNull()) fail("no-such-key", "[null key][2] is not null");
+        }
+        if (has_r && !sc.assign && exact_return(sc)) ret_check(r, false, "set() through a null key returned true");
+      };
+      if (t.form == 0) doit(*w->docs[(size_t)t.doc]);
+      else on_target(*w, t, doit);
+    }
+  }
+
   void op_copy_array() {
     Target t = gen_target();
     size_t n0 = (size_t)s.below(5);
